@@ -19,7 +19,23 @@ run_demo() {
     if [ -f "out/$N/$sc" ]; then (bash "out/$N/$sc" >/dev/null 2>&1) && return 0 || return 1; fi
   done
   for p in $(demo_pkgs); do go test -count=1 -timeout 300s -tags "c01demo c02demo c03demo c06demo demo" "$p" >/dev/null 2>&1 || rc=1; done
-  [ -z "$(demo_pkgs)" ] && rc=2
+  if [ -z "$(demo_pkgs)" ]; then
+    # demonstrations shipped as *.go.txt / *.go.src: copy into the package they declare and run them there
+    rc=2
+    for f in out/$N/*_test.go.txt out/$N/*_test.go.src; do
+      [ -f "$f" ] || continue
+      pkg=$(grep -m1 '^package ' "$f" | awk '{print $2}' | sed 's/_test$//')
+      case "$pkg" in
+        jrpc2|eth|bint|wctx|wos|wslog|wstrings) dir=$pkg ;;
+        config|glf|web) dir=shovel/$pkg ;;
+        *) continue ;;
+      esac
+      cp "$f" "$dir/zz_seed_demo_test.go"
+      names=$(grep -o '^func Test[A-Za-z0-9_]*' "$f" | sed 's/func //' | paste -sd'|')
+      if go test -count=1 -timeout 300s -run "^($names)\$" "./$dir/" >/dev/null 2>&1; then [ $rc = 2 ] && rc=0; else rc=1; fi
+      rm -f "$dir/zz_seed_demo_test.go"
+    done
+  fi
   return $rc
 }
 run_demo; base=$?
